@@ -85,11 +85,14 @@ type setterSummary struct {
 
 func (a setterSummary) String() string { return "{" + strings.Join(a.entries, " | ") + "}" }
 
-func canonTerm(t *eng.Term, argOf func(*eng.Term) string) string {
+func canonTerm(t *eng.Term, argOf func(*eng.Term) string, cloSig ...func(*eng.Term) string) string {
 	if t == nil {
 		return "_"
 	}
 	if t.K == eng.KClosure {
+		if len(cloSig) == 1 && cloSig[0] != nil {
+			return cloSig[0](t)
+		}
 		return "wrapper-closure"
 	}
 	if a := argOf(t); a != "" {
@@ -105,9 +108,19 @@ func canonTerm(t *eng.Term, argOf func(*eng.Term) string) string {
 }
 
 // summarise turns explored paths of a setter into a canonical summary.
-func summarise(paths []*eng.ReturnRec, e *eng.Engine, argOf func(*eng.Term) string) setterSummary {
+func summarise(paths []*eng.ReturnRec, e *eng.Engine, argOf func(*eng.Term) string, cloSig func(*eng.Term) string) setterSummary {
+	es := make([]*eng.Engine, len(paths))
+	for i := range es {
+		es[i] = e
+	}
+	return summariseMulti(paths, es, argOf, cloSig)
+}
+
+// summariseMulti is summarise over paths that come from several explorations.
+func summariseMulti(paths []*eng.ReturnRec, engines []*eng.Engine, argOf func(*eng.Term) string, cloSig func(*eng.Term) string) setterSummary {
 	sum := setterSummary{fields: map[string]bool{}}
-	for _, rt := range paths {
+	for pi, rt := range paths {
+		e := engines[pi]
 		if rt.Panic {
 			sum.problem = "the setter can panic"
 			continue
@@ -130,7 +143,25 @@ func summarise(paths []*eng.ReturnRec, e *eng.Engine, argOf func(*eng.Term) stri
 		sort.Strings(conds)
 		var effs []string
 		for _, f := range ss.stores {
-			effs = append(effs, f.field+" := "+canonTerm(f.val, argOf))
+			c := &eng.Ctx{E: e, St: rt.State}
+			effs = append(effs, f.field+" := "+canonTerm(f.val, argOf, func(t *eng.Term) string {
+				// captured variables: the setter's argument, directly or through its capture cell
+				var binds []string
+				for _, b := range t.A {
+					s := argOf(b)
+					if s == "" {
+						s = argOf(eng.Load(b))
+					}
+					if s == "" {
+						s = canonTerm(c.Mem(b), argOf)
+					}
+					binds = append(binds, s)
+				}
+				if cloSig == nil {
+					return "wrapper-closure"
+				}
+				return "wrapper[" + strings.Join(binds, ",") + "]{" + cloSig(t) + "}"
+			}))
 			sum.fields[f.field] = true
 		}
 		if len(ss.stores) != 1 {
@@ -171,6 +202,19 @@ func AnalyzeConfig(p *load.Program, r *Roles, depth int) *UnitResult {
 		}
 		return out
 	}
+	sigCache := map[*ssa.Function]string{}
+	cloSig := func(t *eng.Term) string {
+		w, _ := t.Aux.(*ssa.Function)
+		if w == nil {
+			return "?"
+		}
+		if s, ok := sigCache[w]; ok {
+			return s
+		}
+		s := wrapperSignature(p, r, res, w)
+		sigCache[w] = s
+		return s
+	}
 	settings := []string{"MaxRetries", "Wait", "BatchConcurrency", "BatchErrorHandling", "PrepFunc", "ExecFunc", "PostFunc", "ExecFallbackFunc", "PrepFuncAny", "ExecFuncAny", "PostFuncAny"}
 	classFields := map[string]map[string]bool{"NodeOption": {}, "CustomNodeOption": {}}
 	nForms := 0
@@ -182,23 +226,36 @@ func AnalyzeConfig(p *load.Program, r *Roles, depth int) *UnitResult {
 			sum   setterSummary
 		}
 		var forms []form
-		// option form
+		// option form: every return path of the option constructor is composed with the setter
+		// closure it returns (the closure is explored with its captured cells preloaded with
+		// what the constructor put there and the constructor's path facts carried over), so
+		// work done before the closure is built counts like work done inside it
 		if fn := p.Func(name); fn != nil && len(fn.Params) >= 1 {
 			e := run(fn, nil, Mode{})
-			var clo *eng.Term
-			var st *eng.State
 			optClass := ""
-			for _, rt := range e.Returns {
+			var all []*eng.ReturnRec
+			var allE []*eng.Engine
+			found := false
+			argSym := func(t *eng.Term) *eng.Term {
+				return t.Map(func(n *eng.Term) *eng.Term {
+					if n.K == eng.KParam {
+						return eng.Sym(fmt.Sprintf("$arg%d", n.I), 0)
+					}
+					return nil
+				})
+			}
+			for ri := range e.Returns {
+				rt := &e.Returns[ri]
 				if rt.Panic || len(rt.Vals) != 1 {
 					continue
 				}
+				var clo *eng.Term
 				v := rt.Vals[0]
-				st = rt.State
+				c := &eng.Ctx{E: e, St: rt.State}
 				switch {
 				case v.K == eng.KClosure:
 					clo, optClass = v, "NodeOption"
 				case v.K == eng.KBox:
-					c := &eng.Ctx{E: e, St: rt.State}
 					obj := c.Mem(v.A[0])
 					if obj.K == eng.KStruct {
 						for _, f := range obj.A {
@@ -208,28 +265,47 @@ func AnalyzeConfig(p *load.Program, r *Roles, depth int) *UnitResult {
 						}
 					}
 				}
-			}
-			if clo == nil {
-				col.Check("C19.R1", "option "+name+":setter", false, p.Position(fn.Pos()), "cannot find the setter closure the option returns", nil)
-			} else {
+				if clo == nil {
+					continue
+				}
+				found = true
 				cfn := clo.Aux.(*ssa.Function)
-				c := &eng.Ctx{E: e, St: st}
-				argIdx := map[*eng.Term]string{}
 				free := make([]*eng.Term, len(cfn.FreeVars))
+				memInit := map[*eng.Term]*eng.Term{}
 				for k, fv := range cfn.FreeVars {
 					free[k] = eng.Free(k, fv.Name())
 					if k < len(clo.A) {
-						cell := c.Mem(clo.A[k])
-						if cell.K == eng.KParam {
-							argIdx[eng.Load(free[k])] = fmt.Sprintf("$arg%d", cell.I)
-						}
-						if clo.A[k].K == eng.KParam {
-							argIdx[free[k]] = fmt.Sprintf("$arg%d", clo.A[k].I)
-						}
+						memInit[free[k]] = argSym(c.Mem(clo.A[k]))
 					}
 				}
-				e2 := run(cfn, free, Mode{}, storeRecMon{})
-				sum := summarise(retPtrs(e2), e2, func(t *eng.Term) string { return argIdx[t] })
+				src := rt.State.Facts()
+				e2 := eng.New(eng.Config{Prog: p.Prog, Pkg: p.SSA, Fset: p.Fset, Root: cfn, RootFree: free, MaxDepth: depth, MaxStates: 20000,
+					Classify: r.Classifier(Mode{}), Monitors: []eng.Monitor{storeRecMon{}}, KeepFacts: true, MemInit: memInit,
+					InitFacts: func(e2 *eng.Engine, f *eng.Facts) {
+						for atom, val := range src.Bools() {
+							e2.Assume(f, argSym(atom), val)
+						}
+					}})
+				e2.Run()
+				res.Stats.add(e2, cfn)
+				for _, pr := range e2.SortedProblems() {
+					col.Unproven("C19.ENGINE", "engine:"+funcLabel(cfn)+":"+pr.Kind, pr.Pos, pr.Msg, nil)
+				}
+				for i := range e2.Returns {
+					all = append(all, &e2.Returns[i])
+					allE = append(allE, e2)
+				}
+			}
+			if !found {
+				col.Check("C19.R1", "option "+name+":setter", false, p.Position(fn.Pos()), "cannot find the setter closure the option returns", nil)
+			} else {
+				argOf := func(t *eng.Term) string {
+					if t.K == eng.KSym && strings.HasPrefix(t.S, "$arg") {
+						return t.S
+					}
+					return ""
+				}
+				sum := summariseMulti(all, allE, argOf, cloSig)
 				forms = append(forms, form{"option " + name, fn.Params[0].Type(), sum})
 				for f := range sum.fields {
 					classFields[optClass][f] = true
@@ -248,7 +324,7 @@ func AnalyzeConfig(p *load.Program, r *Roles, depth int) *UnitResult {
 					return fmt.Sprintf("$arg%d", t.I-1)
 				}
 				return ""
-			})
+			}, cloSig)
 			recv := eng.Param(0, fn.Params[0].Name())
 			for _, rt := range e.Returns {
 				okR := !rt.Panic && len(rt.Vals) == 1 && rt.Vals[0] == recv
@@ -256,9 +332,24 @@ func AnalyzeConfig(p *load.Program, r *Roles, depth int) *UnitResult {
 			}
 			forms = append(forms, form{tn + "." + name, fn.Params[1].Type(), sum})
 		}
+		// the properties stated in terms of "the configured value" count the setter of that value
+		alias := map[string]string{"Wait": ",C20.R5", "MaxRetries": ",C02.R6", "BatchConcurrency": ",C08.R7", "BatchErrorHandling": ",C07.R6,C09.R5"}[S]
 		for _, f := range forms {
 			nForms++
-			col.Check("C19.R2", f.label+":single-field", f.sum.problem == "", p.Position(0), f.sum.problem+" "+f.sum.String(), nil)
+			col.Check("C19.R2"+alias, f.label+":single-field", f.sum.problem == "", p.Position(0), f.sum.problem+" "+f.sum.String(), nil)
+			// the value stored is the argument itself, whatever the rest of the configuration is
+			// (mode setters store constants chosen by the argument: C19.R6 below)
+			if S != "BatchErrorHandling" {
+				okID := len(f.sum.entries) == 1
+				for _, e := range f.sum.entries {
+					cond, eff, _ := strings.Cut(e, " => ")
+					_, val, _ := strings.Cut(eff, " := ")
+					if cond != "" || !(val == "$arg0" || strings.HasPrefix(val, "wrapper[$arg0]{")) {
+						okID = false
+					}
+				}
+				col.Check("C19.R2"+alias, f.label+":stores-argument", okID, p.Position(0), "the setter must store its argument unconditionally and unchanged (or the wrapper built around it); it does "+f.sum.String(), nil)
+			}
 		}
 		// forms taking the same parameter type must have equal summaries
 		for i := 0; i < len(forms); i++ {
@@ -642,4 +733,119 @@ func checkGetters(p *load.Program, r *Roles, col *Col, res *UnitResult, run func
 			col.Check(rule, "BaseNode."+g+":identity", ok, rt.Pos, "the getter must return the configured field, got "+v.Pretty(), nil)
 		}
 	}
+}
+
+// wrapperSignature is a canonical description of what a wrapper closure does:
+// per explored path the branch conditions, the calls of captured functions with
+// their arguments, and the results, all written over the closure's own parameters
+// ($p<i>), its captured variables ($fn<i>) and the results of the captured calls
+// ($u<call>.<k>). Two construction forms install equivalent wrappers exactly when
+// the signatures coincide (C19.R1).
+func wrapperSignature(p *load.Program, r *Roles, res *UnitResult, w *ssa.Function) string {
+	free := make([]*eng.Term, len(w.FreeVars))
+	for i, fv := range w.FreeVars {
+		free[i] = eng.Free(i, fv.Name())
+	}
+	paths := exploreAdapter(p, r, res, w, Mode{}, free, nil, nil, "C19.ENGINE")
+	var lines []string
+	for _, pth := range paths {
+		sub := map[*eng.Term]*eng.Term{}
+		for i := range free {
+			sub[free[i]] = eng.Sym(fmt.Sprintf("$fn%d", i), 0)
+			sub[eng.Load(free[i])] = sub[free[i]]
+		}
+		for i, prm := range w.Params {
+			sub[eng.Param(i, prm.Name())] = eng.Sym(fmt.Sprintf("$p%d", i), 0)
+		}
+		for j, uc := range pth.calls {
+			for k, rt := range uc.res {
+				sub[rt] = eng.Sym(fmt.Sprintf("$u%d.%d", j, k), 0)
+			}
+		}
+		canon := func(t *eng.Term) string {
+			if t == nil {
+				return "_"
+			}
+			if s, ok := sub[t]; ok {
+				return s.Pretty()
+			}
+			return t.Map(func(n *eng.Term) *eng.Term {
+				if s, ok := sub[n]; ok {
+					return s
+				}
+				if n.K == eng.KZero {
+					if st, ok := n.T.Underlying().(*types.Struct); ok {
+						fs := make([]*eng.Term, st.NumFields())
+						for i := range fs {
+							ft := st.Field(i).Type().Underlying()
+							switch ft.(type) {
+							case *types.Interface, *types.Pointer, *types.Slice, *types.Map, *types.Signature, *types.Chan:
+								fs[i] = eng.Nil()
+							default:
+								fs[i] = eng.Zero(st.Field(i).Type())
+							}
+						}
+						return eng.Struct(n.T, fs)
+					}
+				}
+				return nil
+			}).Pretty()
+		}
+		var conds []string
+		for atom, v := range pth.st.Facts().Bools() {
+			c := canon(atom)
+			if !strings.Contains(c, "$") {
+				continue
+			}
+			if !v {
+				c = "!" + c
+			}
+			conds = append(conds, c)
+		}
+		sort.Strings(conds)
+		var calls []string
+		for _, uc := range pth.calls {
+			var as []string
+			for _, a := range uc.args {
+				as = append(as, canon(a))
+			}
+			cls := uc.class
+			if i := strings.Index(cls, ":"); i >= 0 {
+				cls = cls[:i]
+			}
+			calls = append(calls, cls+"("+strings.Join(as, ",")+")")
+		}
+		// results: a value known to be nil on this path is nil, however it is spelled
+		knownNil := func(t *eng.Term) *eng.Term {
+			if t != nil && t.K != eng.KNil && pth.e.Eval(pth.st.Facts(), eng.Bin("==", t, eng.Nil())) == eng.TriTrue {
+				return eng.Nil()
+			}
+			return t
+		}
+		var rets []string
+		for _, rt := range pth.rets {
+			rt = knownNil(rt)
+			if rt.K == eng.KStruct {
+				fs := make([]*eng.Term, len(rt.A))
+				for i, f := range rt.A {
+					fs[i] = knownNil(f)
+				}
+				rt = eng.Struct(rt.T, fs)
+			}
+			rets = append(rets, canon(rt))
+		}
+		line := strings.Join(conds, "&") + " : " + strings.Join(calls, ";") + " -> " + strings.Join(rets, ",")
+		if pth.panic {
+			line += " PANIC"
+		}
+		lines = append(lines, line)
+	}
+	sort.Strings(lines)
+	var out []string
+	for i, l := range lines {
+		if i == 0 || l != lines[i-1] {
+			out = append(out, l)
+		}
+	}
+	return strings.Join(out, " || ")
 }
